@@ -114,7 +114,7 @@ def o92(ctx):
         want = ck if want is None else mk("and", want, ck)
     envs = []
     rng = np.random.default_rng(tm.SEED + 9)
-    for i in range(60):
+    for i in range(60 * tm.N_MULT):
         env = {k: f(rng) for k, f in isam.items()}
         env["__salt__"] = 0.5
         ax = "xyz"[i % 3]
@@ -128,7 +128,7 @@ def o92(ctx):
         else:
             env[ax] = env[f"e{k}"] + 1      # beyond
         envs.append(env)
-    v = tm.equivalent(no_sel(keep), want, n=60, extra_envs=envs, seed_tag=q + "keep", need=30)
+    v = tm.equivalent(no_sel(keep), want, n=len(envs), extra_envs=envs, seed_tag=q + "keep", need=30)
     ctx.count(60, {"keep predicate": tm.show(no_sel(keep))[:200], "equal": bool(v)})
     if not v:
         ctx.finding(q, "row filter", "exactly the particles with 1 <= x' <= end - (start - 1) on every axis must be kept (dropped iff x' < 1 "
